@@ -203,7 +203,10 @@ class RuntimeContract:
         self.may_raise = cdict.get('may_raise', [])
         self.base_env = {'same': same, 'is_closure': is_closure, 'captured': captured, 'math': math}
         for name, (params, text) in spec_defs.items():
-            self.base_env[name] = eval(f'lambda {", ".join(params)}: {text}', self.base_env)
+            tree = ast.parse(f'lambda {", ".join(params)}: {text}', mode='eval')
+            tree = _Rewrite().visit(tree)
+            ast.fix_missing_locations(tree)
+            self.base_env[name] = eval(compile(tree, f'<spec_def:{name}>', 'eval'), self.base_env)
         try:
             from harness import specfuncs_rt
             self.base_env.update(specfuncs_rt.FUNCS)
@@ -217,11 +220,14 @@ class RuntimeContract:
 
     def admissible(self, params):
         env = self.env(params)
+        self.why = ''
         for cl in self.requires:
             try:
                 if not cl.post(env, cl.pre(env)):
+                    self.why = f'requires:{cl.label} is false'
                     return False
-            except Exception:
+            except Exception as ex:
+                self.why = f'requires:{cl.label} raised {type(ex).__name__}: {ex}'
                 return False
         return True
 
